@@ -217,12 +217,13 @@ func runC17(cfg *config, res *monitor.Result) {
 				case uerr != nil && initialized:
 					report("unmarshal", "rejected-complete-message", "Unmarshal failed although every required field is present: "+uerr.Error(), inHex)
 				}
-				// other legal encodings of the same partial value: a message field split over two occurrences, several
-				// members of a oneof one after the other (the last one counts, whatever the earlier ones lack or supply).
+				// other legal encodings of the same partial value (every variant family of E3 without unknown fields), among them
+				// a message field split over two occurrences, several members of a oneof one after the other (the last one
+				// counts, whatever the earlier ones lack or supply), map entries with the value omitted or written twice.
 				// The verdict of the reference's strict parse of the very same bytes is the oracle.
 				for vi2 := range variantFamilies {
 					v := &variantFamilies[vi2]
-					if !v.splitMsg && !v.oneofMulti || v.unknown {
+					if v.unknown || v.family == "canonical" {
 						continue
 					}
 					enc := &venc{v: v, r: monitor.NewRand(cfg.seed, "c17-variant", t.pkg.GoPkg, string(t.md.FullName()), vi, si, v.family)}
